@@ -23,13 +23,13 @@ REQUIRED_COUNTERS = ["ref.optimal", "ref.infeasible", "ref.unbounded", "agree.op
                      "agree.unbounded", "check.feasibility", "check.objective", "check.multiplier.length",
                      "check.multiplier.sign", "check.lagrangian", "check.certificate.primal", "check.certificate.dual",
                      "check.none-rules", "format.sparse", "solver.glpk", "class.matrixform", "class.lp", "class.pwl",
-                     "con.equality", "con.vector-pwl", "con.constant-only", "obj.pwl", "matrixform.scalar-rhs"]
+                     "con.equality", "con.vector-pwl", "con.constant-only", "obj.pwl", "matrixform.scalar-rhs", "obj.scaled-sum-of-max", "solve.with-stale-values"]
 
 
 def plan(tier):
     if tier == "thorough":
         return [{"variant": "plain", "workers": 16, "cases": 6000}]
-    return [{"variant": "plain", "workers": 8, "cases": 130}]
+    return [{"variant": "plain", "workers": 16, "cases": 160}]
 
 
 def run(ctx):
@@ -60,6 +60,22 @@ def run(ctx):
         x0 = {v.idx: np.array([round(rng.uniform(-5, 5), 2) for _ in range(v.n)]) for v in vars_}
         want = S.AFF if lp_only or rng.random() < 0.25 else S.CVX
         obj = g.tree(want, 1, rng.randint(1, 3))
+        if want == S.CVX and rng.random() < 0.3:
+            # a positively scaled sum-of-max term (l1 / hinge terms with a weight): arithmetic ON a sum(max(...)) object
+            inner = S.n_abs(g.tree(S.AFF, rng.choice([2, 3, 4]), 1)) if rng.random() < 0.6 else \
+                S.n_minmax("max", [g.tree(S.AFF, rng.choice([2, 3]), 1), S.K("float", 0.0)])
+            term = S.n_sum(inner)
+            a_ = round(rng.uniform(0.5, 3), 1)
+            how_ = rng.choice(["lmul", "rmul", "div"])
+            if how_ == "lmul":
+                term = S.n_smul(S.K("float", a_), term, "l")
+            elif how_ == "rmul":
+                term = S.n_smul(S.K("float", a_), term, "r")
+            else:
+                term = S.n_div(term, S.K("float", a_))
+            if term.bad is None:
+                obj = S.n_add(obj, term)
+                ctx.count("obj.scaled-sum-of-max")
         cons = []
 
         def add(lhs, rhs, rel, tag):
@@ -351,13 +367,18 @@ def run(ctx):
             sum(1 for c_ in cons if c_["typ"] == "<") <= 1 and sum(1 for c_ in cons if c_["typ"] == "=") <= 1
         expect = {"optimal": "optimal", "infeasible": "primal infeasible", "unbounded": "dual infeasible"}[ref["status"]]
         results = {}
+        stale = rng.random() < 0.6
         for tag, kw in (("dense", {"format": "dense"}), ("sparse", {"format": "sparse"}),
                         ("glpk", {"format": "dense", "solver": "glpk"})):
             ctx.count("format.sparse" if tag == "sparse" else ("solver.glpk" if tag == "glpk" else "format.dense"))
+            # stale values, as left behind by an earlier solve of the same op: solve() itself has to overwrite them
+            # with the new result or with None
             for v in vars_:
-                rv[v.idx].value = None
+                rv[v.idx].value = matrix(7.7e7, (v.n, 1)) if stale else None
             for rc in rcons:
-                rc.multiplier.value = None
+                rc.multiplier.value = matrix(7.7e7, (len(rc), 1)) if stale else None
+            if stale:
+                ctx.count("solve.with-stale-values")
             out = outcome(p, **kw)
             c.check()
             if out[0] == "exc":
